@@ -20,7 +20,7 @@ const mambaMod = "github.com/Tom-Johnston/mamba"
 // Ctx is one loaded, type-checked and SSA-built program (the repository or the
 // positive-control module) plus lazily computed whole-program analyses.
 type Ctx struct {
-	immut map[*ssa.Global]bool
+	immut   map[*ssa.Global]bool
 	Dir     string
 	Mod     string // module path prefix of the code under analysis
 	Pkgs    []*packages.Package
